@@ -29,7 +29,10 @@ func ServeError(w http.ResponseWriter, err error) {
 }
 
 func isContentXML(h http.Header) bool {
-	t, _, _ := mime.ParseMediaType(h.Get("Content-Type"))
+	t, _, err := mime.ParseMediaType(h.Get("Content-Type"))
+	if err != nil {
+		return false
+	}
 	return t == "application/xml" || t == "text/xml"
 }
 
